@@ -274,7 +274,7 @@ def run_shard(spec):
 
 
 def plan(tier, seed, scale):
-    return base.plan_scripts(PROP, tier, seed, scale, quick=48, thorough=1600, extra={"compare_timeouts": True})
+    return base.plan_scripts(PROP, tier, seed, scale, quick=256, thorough=3200, extra={"compare_timeouts": True})
 
 
 def replay_specs(rp):
